@@ -123,6 +123,7 @@ def gen_trees(tier, rng, plens, quick_n, thorough_n, need_nonempty=True):
     for Pbig, szs in ((2 * M, (3 * M,)), (2 * M, (2 * M + 1, 5)), (M, (M + 5, 3)), (4 * M, (5 * M + 1,)),
                       (8 * M, (M + 7, 9 * M + 3, 100 * 1024)),      # a piece reaching > 4 MiB into the next file
                       (64 * M, (M + 7, 5)),                          # > 32 MiB of padding after a file (hybrid / align)
+                      (64 * M, (33 * M + 1, 5)), (64 * M, (64 * M + 1,)),    # files larger than 32 MiB at 64 MiB pieces
                       (8 * M, (12 * M,)), (8 * M, (4 * M, 3)), (16 * M, (20 * M,))):   # sizes on MiB-sized read boundaries inside a piece
         out.append(({1: "S1", 2: "D2", 3: "D3"}[len(szs)], szs, Pbig))
     n = thorough_n if tier == "thorough" else quick_n
@@ -366,9 +367,10 @@ class C02(CreateProp):
         combos = [("TorrentAssembler", 2), ("TorrentAssembler", 3), ("TorrentFileV2", 2),
                   ("TorrentFileHybrid", 3), ("cli", 2), ("cli", 3)]
         for n, (sh, sizes, P) in enumerate(gen_trees(tier, rng, plens(tier), 200, 10000)):
-            creator, v = combos[n % len(combos)]
-            out.append({"creator": creator, "version": v, "P": P, "tree": mk_tree(sh, sizes, modes=modes_for(n, sizes), nv=(n // 2) % 6 if n % 4 == 1 else 0), "clauses": cl,
-                        "progress": (1, 2)[n % 2] if n % 7 == 0 else 0})
+            # piece lengths of a MiB and more: every creator (their hashers read in different ways)
+            for creator, v in (combos if P >= 2 ** 20 else [combos[n % len(combos)]]):
+                out.append({"creator": creator, "version": v, "P": P, "tree": mk_tree(sh, sizes, modes=modes_for(n, sizes), nv=(n // 2) % 6 if n % 4 == 1 else 0), "clauses": cl,
+                            "progress": (1, 2)[n % 2] if n % 7 == 0 else 0})
         out += hashers_scaled(["C02.hashers"], tier)
         return out
 
@@ -394,9 +396,9 @@ class C03(CreateProp):
         out = []
         combos = [("TorrentAssembler", 3), ("TorrentFileHybrid", 3), ("cli", 3)]
         for n, (sh, sizes, P) in enumerate(gen_trees(tier, rng, plens(tier), 200, 10000)):
-            creator, v = combos[n % len(combos)]
-            out.append({"creator": creator, "version": v, "P": P, "tree": mk_tree(sh, sizes, modes=modes_for(n, sizes), nv=(n // 2) % 6 if n % 4 == 1 else 0), "clauses": cl,
-                        "progress": (1, 2)[n % 2] if n % 7 == 0 else 0})
+            for creator, v in (combos if P >= 2 ** 20 else [combos[n % len(combos)]]):
+                out.append({"creator": creator, "version": v, "P": P, "tree": mk_tree(sh, sizes, modes=modes_for(n, sizes), nv=(n // 2) % 6 if n % 4 == 1 else 0), "clauses": cl,
+                            "progress": (1, 2)[n % 2] if n % 7 == 0 else 0})
         return out
 
 
@@ -427,8 +429,12 @@ class C10(CreateProp):
             more = [k * P + d for k in range(6, 34 if P == B else 13) for d in (0, 1)]
             for s in alphabet(P) + more:
                 if s > 0:
-                    out.append({"op": "hashers", "size": s, "P": P, "group": "none",
+                    out.append({"op": "hashers", "size": s, "P": P, "group": "none", "chdir_between": len(out) % 4 == 0,
                                 "clauses": ["C10.hashers", "C10.steps", "M10.impl"]})
+        # hashers used directly on MiB-sized pieces / files (their read loops differ)
+        M = 2 ** 20
+        for P, s in ((8 * M, 12 * M), (8 * M, 4 * M), (16 * M, 20 * M + 1), (64 * M, 33 * M + 1), (64 * M, 64 * M + 1), (M, 3 * M)):
+            out.append({"op": "hashers", "size": s, "P": P, "group": "none", "clauses": ["C10.hashers", "C10.steps"]})
         out += hashers_scaled(["C10.hashers", "C10.steps", "M10.impl"], tier)
         return out
 
